@@ -153,6 +153,63 @@ def as_sym(v, what="value"):
     raise AnalysisError(f"{what} is not a numeric expression: {type(v).__name__} {v!r}")
 
 
+class RaisedV(AnalysisError):
+    """the analysed path reaches `raise X(...)`; rules that expect a refusal catch this"""
+
+    def __init__(self, exc_name, where=""):
+        super().__init__(f"a raise statement is reached on the analysed path: {exc_name}", where)
+        self.exc_name = exc_name
+
+
+class ArrV:
+    """numpy array whose trailing axes have constant sizes (e.g. (..., 6, 6)); `batch` leading
+    axes are symbolic grid axes.  Cells default to `fill`."""
+
+    def __init__(self, batch, shape, fill=sp.Integer(0), cells=None, sym_of=None):
+        self.batch, self.shape, self.fill = batch, tuple(shape), fill
+        self.cells = dict(cells or {})
+        self.sym_of = sym_of   # for inverse matrices: the ArrV this one is the inverse of
+
+    def get(self, key):
+        return self.cells.get(tuple(key), self.fill)
+
+    def index_sets(self, items, ev, n=None, mod=None):
+        """items: index objects for all axes -> (list of per-const-axis index lists, per-axis is_scalar)"""
+        items = list(items)
+        if any(i is Ellipsis for i in items):
+            k = items.index(Ellipsis)
+            items = items[:k] + [SliceV(None, None, None)] * (self.batch + len(self.shape) - len(items) + 1) + items[k + 1:]
+        while len(items) < self.batch + len(self.shape):
+            items.append(SliceV(None, None, None))
+        if len(items) != self.batch + len(self.shape):
+            raise ev.err("index rank does not match the array", n, mod)
+        for i in items[: self.batch]:
+            if not (isinstance(i, SliceV) and i.lo is None and i.hi is None and i.step is None):
+                raise ev.err("non-trivial index on a grid axis", n, mod)
+        sets, scalar = [], []
+        for size, i in zip(self.shape, items[self.batch:]):
+            if isinstance(i, SliceV):
+                lo = 0 if i.lo is None else _const_int(i.lo)
+                hi = size if i.hi is None else _const_int(i.hi)
+                st = 1 if i.step is None else _const_int(i.step)
+                sets.append(list(range(size))[lo:hi:st])
+                scalar.append(False)
+            else:
+                k = _const_int(i)
+                if k < 0:
+                    k += size
+                if not 0 <= k < size:
+                    raise ev.err(f"constant index {k} out of bounds for axis of size {size}", n, mod)
+                sets.append([k])
+                scalar.append(True)
+        return sets, scalar
+
+
+class MatchV:
+    def __init__(self, m):
+        self.m = m
+
+
 class Ret(Exception):
     def __init__(self, value):
         self.value = value
@@ -227,6 +284,12 @@ class Ev:
             if kind == "classattr":
                 m = self.model.mods[owner.split(":")[0]]
                 return self.eval(f, {}, m)
+        if isinstance(v, MatchV) and name in ("group", "groups"):
+            return BoundLib(f"match.{name}", v)
+        if isinstance(v, ArrV) and name == "shape":
+            return Tup([sp.Symbol(f"dim{i}", positive=True, integer=True) for i in range(v.batch)] + [sp.Integer(x) for x in v.shape])
+        if isinstance(v, ArrV) and name == "T" and len(v.shape) == 2 and v.batch == 0:
+            return ArrV(0, v.shape[::-1], v.fill, {(j, i): x for (i, j), x in v.cells.items()})
         if isinstance(v, DictV) and name in ("keys", "values", "items", "get"):
             return BoundLib(f"dict.{name}", v)
         raise self.err(f"unresolved attribute .{name} on {type(v).__name__} {v!r}", node, mod)
@@ -271,6 +334,8 @@ class Ev:
             tgt = delegating_getattr_target(ga)
             if tgt is not None:
                 return self.get_attr(self.obj_attr(obj, tgt, node, mod), name, node, mod)
+            omod = self.model.mods[owner.split(":")[0]]
+            return self.call_def(ga, omod, f"{owner}.__getattr__", [obj, name], {})
         raise self.err(f"unresolved attribute {name} on {obj.cls}", node, mod)
 
     def init_attr(self, obj: Obj, name):
@@ -531,6 +596,8 @@ class Ev:
     def truth(self, v, n=None, mod=None):
         if isinstance(v, bool) or v is None:
             return bool(v)
+        if isinstance(v, MatchV):
+            return True
         if isinstance(v, str):
             return bool(v)
         if is_sym(v) and v.is_number:
@@ -557,7 +624,7 @@ class Ev:
 
     def compare(self, op, a, b, n, mod):
         def const(v):
-            if isinstance(v, (str, bool)) or v is None:
+            if isinstance(v, (str, bool)) or v is None or hasattr(v, "const_key"):
                 return True
             if is_sym(v) and v.is_number:
                 return True
@@ -566,6 +633,8 @@ class Ev:
             return False
 
         def py(v):
+            if hasattr(v, "const_key"):
+                return v.const_key
             if is_sym(v):
                 return v
             if isinstance(v, Tup):
@@ -638,6 +707,20 @@ class Ev:
             base = base.val
         if isinstance(base, Opaque):
             return Opaque(f"{base.name}[{idx!r}]")
+        if isinstance(base, ShapeOf):
+            return sp.Symbol(f"dim{idx}", positive=True, integer=True)
+        if isinstance(base, ArrV):
+            items = idx.items if isinstance(idx, Tup) else [idx]
+            sets, scalar = base.index_sets(items, self, n, mod)
+            if all(scalar):
+                return base.get([x[0] for x in sets])
+            out_shape = [len(x) for x, sc in zip(sets, scalar) if not sc]
+            out = ArrV(base.batch, out_shape, base.fill)
+            for combo in itertools.product(*[range(len(x)) for x in sets]):
+                src_key = tuple(x[c] for x, c in zip(sets, combo))
+                dst_key = tuple(c for c, sc in zip(combo, scalar) if not sc)
+                out.cells[dst_key] = base.get(src_key)
+            return out
         if isinstance(base, LibV) and base.name == "scipy.constants.physical_constants":
             if idx not in U.PHYSICAL_CONSTANTS:
                 raise self.err(f"physical constant {idx!r} not in T-UNITS", n, mod)
@@ -924,6 +1007,22 @@ class Ev:
             hook = self.seeds.get((base.cls, "__setitem__"))
             if hook:
                 return hook(self, base, idx, v)
+        if isinstance(base, ArrV):
+            items = idx.items if isinstance(idx, Tup) else [idx]
+            sets, scalar = base.index_sets(items, self, t, mod)
+            if isinstance(v, ArrV):
+                dims = [len(x) for x, sc in zip(sets, scalar) if not sc]
+                if list(v.shape) != dims:
+                    raise self.err(f"shape mismatch in block store {v.shape} -> {dims}", t, mod)
+                for combo in itertools.product(*[range(len(x)) for x in sets]):
+                    dst = tuple(x[c] for x, c in zip(sets, combo))
+                    sk = tuple(c for c, sc in zip(combo, scalar) if not sc)
+                    base.cells[dst] = v.get(sk)
+                return
+            val = as_sym(v)
+            for combo in itertools.product(*sets):
+                base.cells[tuple(combo)] = val
+            return
         if isinstance(t.value, ast.Name) and (is_sym(base) or isinstance(base, Masked)):
             items = idx.items if isinstance(idx, Tup) else [idx]
             conds = [(k, i) for k, i in enumerate(items) if isinstance(i, (WhereV, CondV))]
@@ -990,7 +1089,10 @@ class Ev:
         env[st.name] = LocalFuncV(st, env, mod, f"{env.get('__qual__', mod.name + ':?')}.{st.name}")
 
     def s_Raise(self, st, env, mod):
-        raise self.err("a raise statement is reached on the analysed path", st, mod)
+        name = "?"
+        if st.exc is not None:
+            name = dotted_name(st.exc.func if isinstance(st.exc, ast.Call) else st.exc) or "?"
+        raise RaisedV(name, f"{mod.rel}:{st.lineno}")
 
     def s_Assert(self, st, env, mod):
         return
@@ -1196,7 +1298,7 @@ def lib_set(ev, a, k, n, mod):
     items = ev.iterate(a[0], n, mod) if a else []
     out, seen = [], []
     for i in items:
-        kx = tuple(i.items) if isinstance(i, Tup) else i
+        kx = tuple(i.items) if isinstance(i, Tup) else getattr(i, "const_key", i)
         if kx not in seen:
             seen.append(kx)
             out.append(i)
@@ -1342,3 +1444,98 @@ def standard_seeds():
 
 def standard_intrinsics():
     return {}
+
+
+# ---------------------------------------------------------------- arrays, regex, getattr
+def _shape_items(ev, v, n, mod):
+    items = ev.iterate(v, n, mod) if isinstance(v, Tup) else [v]
+    const = []
+    for i in reversed(items):
+        if is_sym(i) and i.is_Integer:
+            const.insert(0, int(i))
+        else:
+            break
+    return len(items) - len(const), const
+
+
+def lib_zeros(ev, a, k, n, mod):
+    batch, const = _shape_items(ev, a[0], n, mod)
+    if not const:
+        return sp.Integer(0)
+    return ArrV(batch, const, sp.Integer(0))
+
+
+def lib_ones(ev, a, k, n, mod):
+    batch, const = _shape_items(ev, a[0], n, mod)
+    if not const:
+        return sp.Integer(1)
+    return ArrV(batch, const, sp.Integer(1))
+
+
+INV_COUNTER = [0]
+
+
+def lib_inv(ev, a, k, n, mod):
+    m = a[0]
+    if not isinstance(m, ArrV) or len(m.shape) != 2 or m.shape[0] != m.shape[1]:
+        raise ev.err("numpy.linalg.inv of something that is not a (..., n, n) array", n, mod)
+    size = m.shape[0]
+    symmetric = all(sp.simplify(m.get((i, j)) - m.get((j, i))) == 0 for i in range(size) for j in range(i))
+    INV_COUNTER[0] += 1
+    tag = INV_COUNTER[0]
+    out = ArrV(m.batch, m.shape, sp.Integer(0), sym_of=m)
+    for i in range(size):
+        for j in range(size):
+            a_, b_ = (min(i, j), max(i, j)) if symmetric else (i, j)
+            out.cells[(i, j)] = sp.Symbol(f"INV{tag}_{a_}_{b_}", real=True)
+    out.symmetric = symmetric
+    out.tag = tag
+    ev.__dict__.setdefault("inversions", []).append(out)
+    return out
+
+
+def lib_allclose_unknown(ev, a, k, n, mod):
+    x = a[0]
+    if is_sym(x) and x.is_number and is_sym(a[1]) and a[1].is_number:
+        return bool(x == a[1])
+    # a symbolic array is assumed not to vanish identically (a vanishing one is merely skipped)
+    return False
+
+
+def lib_re_search(ev, a, k, n, mod):
+    import re
+    pat, text = a[0], a[1]
+    if not isinstance(pat, str) or not isinstance(text, str):
+        raise ev.err("re.search on non-constant arguments", n, mod)
+    m = re.search(pat, text)
+    return MatchV(m) if m else None
+
+
+def lib_getattr(ev, a, k, n, mod):
+    if not isinstance(a[1], str):
+        raise ev.err("getattr with a non-constant name", n, mod)
+    try:
+        return ev.get_attr(a[0], a[1], n, mod)
+    except RaisedV:
+        raise
+    except AnalysisError:
+        if len(a) > 2:
+            return a[2]
+        raise
+
+
+def lib_match_group(ev, a, k, n, mod):
+    m = a[0].m
+    return m.group(*[_const_int(x) for x in a[1:]])
+
+
+def lib_match_groups(ev, a, k, n, mod):
+    return Tup(list(a[0].m.groups()))
+
+
+LIB.update({
+    "match.group": lib_match_group, "match.groups": lib_match_groups,
+    "numpy.zeros": lib_zeros, "numpy.ones": lib_ones, "numpy.linalg.inv": lib_inv,
+    "numpy.allclose": lib_allclose_unknown, "re.search": lib_re_search, "re.match": lib_re_search,
+    "getattr": lib_getattr,
+})
